@@ -149,6 +149,7 @@ func runC10(c *Ctx, tier string) {
 	runSpillKeyOrderTotal(c, "C10-K2")
 	runInputSortDirFirstKeyOnly(c, "C10-I1")
 	runMathReducerPromotion(c, "C10-M2")
+	runNullPartialsAccepted(c, "C10-P4")
 }
 
 func recvType(cc *ssa.CallCommon) types.Type {
